@@ -490,9 +490,37 @@ func (e *env) keySet() (string, []uint32) {
 		if len(set) == 0 {
 			set[65536] = true
 		}
-	case x < 60:
+	case x < 58:
 		shape = "single-zero"
 		set[0] = true
+	case x < 60 || (x >= 84 && x < 90):
+		// keys that are exact multiples of 65536 and not in the file's first container, with
+		// neighbours in the same and the previous 65536-block (per-container rank bases)
+		shape = "container-start"
+		if r.Intn(2) == 0 {
+			set[uint32(r.Intn(65536))] = true // something in an earlier container
+		}
+		for j := 1 + r.Intn(4); j > 0; j-- {
+			base := uint32(1+r.Intn(65535)) << 16
+			if r.Intn(6) == 0 {
+				base = 0xFFFF0000
+			}
+			set[base] = true
+			for n := r.Intn(6); n > 0; n-- {
+				set[base+uint32(r.Intn(40))] = true
+			}
+			if r.Intn(2) == 0 {
+				set[base+uint32(r.Intn(65536))] = true
+			}
+			if r.Intn(2) == 0 {
+				set[base-1-uint32(r.Intn(3))] = true
+			}
+			if r.Intn(4) == 0 { // a dense run across the boundary
+				for d := uint32(0); d < uint32(20+r.Intn(200)); d++ {
+					set[base-10+d] = true
+				}
+			}
+		}
 	case x < 64:
 		shape = "extremes"
 		set[4294967295] = true
@@ -521,7 +549,7 @@ func (e *env) keySet() (string, []uint32) {
 		hi := uint32(r.Intn(4)) << 16
 		n := 4200 + r.Intn(1200)
 		if !e.quick && r.Intn(3) == 0 {
-			n = 20000 + r.Intn(20000)
+			n = 12000 + r.Intn(10000)
 		}
 		for len(set) < n {
 			set[hi|uint32(r.Intn(65536))] = true
@@ -1041,11 +1069,46 @@ func (e *env) caseVersion() {
 			c.NonTrivial()
 			c.Branch("key-in-several-files")
 		}
-		// FindReaders agrees with FindFiles
+		// FindReaders: a reader for every file found
 		var rds []table.Reader
 		p, _ = guard(func() { rds, err = snap.FindReaders(k) })
-		if p || err != nil || len(rds) != len(found) {
-			c.Fail("findreaders-mismatch", fmt.Sprintf("FindReaders(%d): %d readers, FindFiles: %d files (err %v)", k, len(rds), len(found), err))
+		rop := fmt.Sprintf("readers %d", k)
+		switch {
+		case p:
+			c.Op(rop, "panic")
+			c.Fail("panic", "FindReaders panicked")
+		case err != nil:
+			c.Op(rop, "err")
+			c.Fail("findreaders-error", strings.ReplaceAll(err.Error(), e.dir, "<dir>"))
+		default:
+			var fn []int
+			for _, rd := range rds {
+				var n int
+				fmt.Sscanf(rd.FileName(), "%d.sst", &n)
+				fn = append(fn, n)
+			}
+			sort.Ints(fn)
+			ws := make([]string, len(fn))
+			for i, n := range fn {
+				ws[i] = strconv.Itoa(n)
+			}
+			c.Op(rop, "r="+strings.Join(ws, ","))
+			if len(rds) != len(found) {
+				c.Fail("findreaders-mismatch", fmt.Sprintf("FindReaders(%d): %d readers, FindFiles: %d files", k, len(rds), len(found)))
+			}
+			for _, t := range ts {
+				for _, en := range t.entries {
+					if en.k == k {
+						ok := false
+						for _, n := range fn {
+							ok = ok || n == t.fno
+						}
+						if !ok {
+							c.Fail("findreaders-misses-file", fmt.Sprintf("key %d lives in file %d but FindReaders gives no reader for it", k, t.fno))
+						}
+					}
+				}
+			}
 		}
 	}
 }
